@@ -742,6 +742,132 @@ def _loss_send_raises_oserror():
     return "true" if ok else "false"
 
 
+# ---- C17 : rsync ------------------------------------------------------------------------------------
+
+
+def _rsync_recv():
+    f = find("rsync_remote.py", "serve_rsync")
+    for n in f.body:
+        if isinstance(n, ast.FunctionDef) and n.name == "receive_directory_structure":
+            return f, n
+    raise LookupError("receive_directory_structure")
+
+
+def _file_decision():
+    """the if/elif chain deciding what to do with a regular file that exists at the target"""
+    _, r = _rsync_recv()
+    for n in ast.walk(r):
+        if isinstance(n, ast.If) and _src(n.test) == "msg_size != st.st_size":
+            return n
+    raise LookupError("decision table")
+
+
+@fact("rsync_file_mode_exact", "bool", "false")
+def _rsync_file_mode_exact():
+    """mode-only difference of a regular file: chmod(path, msg_mode) exactly (no owner bits or-ed in), then return"""
+    n = _file_decision()
+    if _src(n.body) != "pass" or len(n.orelse) != 1 or not isinstance(n.orelse[0], ast.If):
+        return "false"
+    m = n.orelse[0]
+    if _src(m.test) != "msg_mtime != st.st_mtime" or len(m.orelse) != 1 or not isinstance(m.orelse[0], ast.If):
+        return "false"
+    k = m.orelse[0]
+    if _src(k.test) != "msg_mode and msg_mode != st.st_mode":
+        return "false"
+    return "true" if [_src(x) for x in k.body] == ["os.chmod(path, msg_mode)", "return"] else "false"
+
+
+@fact("rsync_decision_table_ok", "bool", "false")
+def _rsync_decision_table_ok():
+    """size differs -> request; mtime differs -> request with the md5 of the target file; mode differs -> chmod only;
+    else nothing; a target entry of another kind is removed; every request is recorded for the content phase"""
+    _, r = _rsync_recv()
+    n = _file_decision()
+    m = n.orelse[0]
+    k = m.orelse[0]
+    ok = _src(m.body) == "with open(path, 'rb') as fp:\n    checksum = md5(fp.read()).digest()"
+    ok = ok and [_src(x) for x in k.orelse] == ["return"] and _src(k.body[-1]) == "return"
+    t = _src(r)
+    ok = ok and "if stat.S_ISREG(st.st_mode):" in t and "else:\n                remove(path)" in t
+    ok = ok and "channel.send(('send', (relcomponents, checksum)))\n        modifiedfiles.append((path, msg))" in t
+    ok = ok and "try:\n        st = os.lstat(path)\n    except OSError:\n        st = None\n    msg = channel.receive()" in t
+    return "true" if ok else "false"
+
+
+@fact("rsync_dir_phase_ok", "bool", "false")
+def _rsync_dir_phase_ok():
+    """a directory message: a non-directory in the way is unlinked, the directory created, chmod(mode | 0o700), every
+    listed entry received recursively, and with delete every unlisted entry removed"""
+    _, r = _rsync_recv()
+    t = _src(r)
+    need = ["if isinstance(msg, list):", "if st and (not stat.S_ISDIR(st.st_mode)):\n            os.unlink(path)\n            st = None", "if not st:\n            os.makedirs(path)",
+            "mode = msg.pop(0)", "os.chmod(path, mode | 448)", "for entryname in msg:\n            destpath = os.path.join(path, entryname)\n            receive_directory_structure(destpath, [*relcomponents, entryname])\n            entrynames[entryname] = True",
+            "if options.get('delete'):\n            for othername in os.listdir(path):\n                if othername not in entrynames:\n                    otherpath = os.path.join(path, othername)\n                    remove(otherpath)"]
+    f, _ = _rsync_recv()
+    rm = [n for n in f.body if isinstance(n, ast.FunctionDef) and n.name == "remove"]
+    ok = all(x in t for x in need) and len(rm) == 1 and "os.unlink(path)" in _src(rm[0]) and "shutil.rmtree(path, True)" in _src(rm[0])
+    return "true" if ok else "false"
+
+
+@fact("rsync_content_phase_ok", "bool", "false")
+def _rsync_content_phase_ok():
+    """content phase: for every requested file, data is written when present, and chmod(mode) + utime(mtime) are applied
+    in any case (also when the content turned out to be identical); sender: md5 short-cut, report, send"""
+    f, _ = _rsync_recv()
+    loops = [n for n in f.body if isinstance(n, ast.For) and _src(n.iter) == "modifiedfiles"]
+    if len(loops) != 1:
+        return "false"
+    body = loops[0].body
+    t = [_src(x) for x in body]
+    ok = t[0] == "data = cast(bytes, channel.receive())" and t[1].startswith("channel.send(('ack',")
+    ifs = [x for x in body if isinstance(x, ast.If) and _src(x.test) == "data is not None"]
+    ok = ok and len(ifs) == 1 and "with open(path, 'wb') as fp:\n        fp.write(data)" in _src(ifs[0]) and not ifs[0].orelse
+    ok = ok and not any(isinstance(x, (ast.Continue, ast.Break, ast.Return)) for b in body for x in ast.walk(b))
+    trs = [x for x in body if isinstance(x, ast.Try)]
+    ok = ok and len(trs) == 1 and _src(trs[0].body) == "if mode:\n    os.chmod(path, mode)\nos.utime(path, (time, time))"
+    si = _src(find("rsync.py", "RSync._send_item"))
+    ok = ok and "if checksum is not None and checksum == md5(data).digest():\n            data = None\n        else:\n            self._report_send_file(channel.gateway, modified_rel_path)\n    channel.send(data)" in si
+    ds = _src(find("rsync.py", "RSync._send_directory_structure"))
+    ok = ok and "self._broadcast((st.st_mode, st.st_mtime, st.st_size))" in ds and "self._send_directory(path)" in ds and "self._send_link_structure(path)" in ds
+    sd = _src(find("rsync.py", "RSync._send_directory"))
+    ok = ok and "self._broadcast([mode, *names])" in sd and "for p in subpaths:\n        self._send_directory_structure(p)" in sd
+    return "true" if ok else "false"
+
+
+@fact("rsync_rel_links_asis", "bool", "false")
+def _rsync_rel_links_asis():
+    """RSync._send_link_structure: os.path.relpath is applied to ABSOLUTE link texts only"""
+    f = find("rsync.py", "RSync._send_link_structure")
+    calls = [n for n in ast.walk(f) if isinstance(n, ast.Call) and _src(n.func) == "os.path.relpath"]
+    if len(calls) != 1:
+        return "false"
+    guarded = False
+    for n in ast.walk(f):
+        if isinstance(n, ast.If) and _src(n.test) == "os.path.isabs(linkpoint)" and not n.orelse:
+            if any(c is calls[0] for b in n.body for c in ast.walk(b)):
+                guarded = True
+                # relpath must be None on the other path
+                body = f.body
+                idx = body.index(n) if n in body else -1
+                if idx <= 0 or _src(body[idx - 1]) != "relpath = None":
+                    guarded = False
+    return "true" if guarded else "false"
+
+
+@fact("rsync_link_phase_ok", "bool", "false")
+def _rsync_link_phase_ok():
+    """links: 'linkbase' for a text that is a proper path below the source dir, 'link' otherwise; the receiver removes
+    what is in the way and creates <destdir>/<text> resp. the text itself"""
+    t = _src(find("rsync.py", "RSync._send_link_structure"))
+    ok = "basename = path[len(self._sourcedir) + 1:]" in t and "linkpoint = os.readlink(path)" in t
+    ok = ok and "if relpath is not None and relpath not in (os.curdir, os.pardir) and (not relpath.startswith(os.pardir + os.sep)):\n        self._send_link('linkbase', basename, relpath)\n    else:\n        self._send_link('link', basename, linkpoint)\n    self._broadcast(None)" in t
+    f, _ = _rsync_recv()
+    s = _src(f)
+    ok = ok and "path = os.path.join(destdir, relpath)\n        with suppress(OSError):\n            remove(path)" in s
+    ok = ok and "if _type == 'linkbase':\n            src = os.path.join(destdir, linkpoint)\n        else:\n            assert _type == 'link', _type\n            src = linkpoint\n        os.symlink(src, path)" in s
+    return "true" if ok else "false"
+
+
 # ---- C18 : channel ids -------------------------------------------------------------------------------
 
 
@@ -870,6 +996,8 @@ DIGESTS = [
     ("multi.py", "Group._unregister"),
     ("multi.py", "Group.__getitem__"),
     ("multi.py", "Group.__contains__"),
+    ("rsync.py", "RSync"),
+    ("rsync_remote.py", "serve_rsync"),
     ("gateway_base.py", "Channel.setcallback"),
     ("gateway_base.py", "Channel.waitclose"),
     ("gateway_base.py", "Channel._getremoteerror"),
